@@ -35,6 +35,9 @@ CHECKS = {
  "C05": dict(engine="simrt+simnet+modelredis", cat="exploration", ref="DESIGN.md 5/C05",
    text="Seeded search over reply framings (keep-alive newlines, letter case, RDB sizes around the copy buffer, command bytes riding with the RDB) x heavy TCP segmentation/latency/short reads/small windows x schedules, through the real PSYNC hand-off and dump mode; the target must hold exactly the RDB keys and apply exactly the following commands, the dump file must be byte-identical.",
    tech="deterministic simulation: simulated TCP with tape-chosen segmentation against the real sync hand-off and dump mode, master/target models"),
+ "C13": dict(engine="simrt+simnet+modelredis", cat="exploration", ref="DESIGN.md 5/C13",
+   text="Seeded search over the tool's own write-command table (read at run time) x arities x per-key pass/fail x whitelist/blacklist, observed as the command received by the target model in a simulated incremental sync; key positions come from the Redis command documentation.",
+   tech="deterministic simulation as observation path (incremental sync into a logging target model) + documented key specifications as reference"),
  "C18": dict(engine="simrt", cat="exploration", ref="DESIGN.md 5/C18",
    text="Seeded search over writer/reader/closer scripts and lock-granularity interleavings of the real backlog ring against an absolute-offset log model (interval semantics for in-flight writes), with lost-wake-up analysis at quiescence.",
    tech="deterministic simulation: tape-driven baton scheduler over instrumented locks/conds + absolute-offset log model"),
